@@ -111,6 +111,16 @@ def instances(tier, rng):
                     r["k"] = max(1, len(u["proutes"]))
                     r["grp"] = g
                     groups.append(r)
+                if len(u["nodes"]) >= 3:
+                    v = rng.choice(u["nodes"])
+                    g += 1
+                    for var in ({"ign": [v]}, {"escale": [[v, 0, 1]]}):       # the same on a node, node mode
+                        r = C.base(u, cls, "node")
+                        r.update(var)
+                        r["wt"] = "int"
+                        r["k"] = max(1, len(u["proutes"]))
+                        r["grp"] = g
+                        groups.append(r)
             if cls not in C.NO_STARTS_EDGE:
                 g += 1
                 for var in ({}, {"starts": [], "ends": []}):
